@@ -521,3 +521,30 @@ Proof.
 Qed.
 Lemma mono_fn_R a c X : @mono_fn R NumR a c X = rmon X (a, c).
 Proof. unfold mono_fn, rmon; cbn [fst snd]. unfold_num. rewrite !npow_R. reflexivity. Qed.
+
+(* ------------------------------------------------------------------ the nodal field interpolated on an edge *)
+(* FunctionSpace.interpolate_nodal_field_on_edge for a polynomial nodal field u of degree <= p sampled at the exact edge nodes:
+   u_q = sum_a N_a(s_q) u(A + sigma_a t) reproduces u(A + s_q t) up to C * eps *)
+Theorem edge_interp_exact k u ux uy A B p : PolyG k u ux uy -> (k <= p)%nat ->
+  exists C, 0 <= C /\ forall eps nodes s N dN, RefIds1 p eps nodes s N dN ->
+    Rabs (rdot N (map (fun sg => u (seg A B sg)) nodes) - u (seg A B s)) <= C * eps.
+Proof.
+  intros HP Hk.
+  pose proof (PolyG_affine k u ux uy (fst A) (fst B - fst A) 0 (snd A) (snd B - snd A) 0 HP) as HA. cbv zeta in HA.
+  apply PolyG_normal_form in HA. destruct HA as [P [DP EP]].
+  assert (E : forall s, u (seg A B s) = peval P (s, 0)).
+  { intros s. destruct (EP (s, 0)) as [E0 _]. rewrite <- E0. f_equal. unfold affmap, seg; cbn [fst snd]. f_equal; ring. }
+  exists (pnorm1 P). split; [apply pnorm1_nonneg|]. intros eps nodes s N dN [_ [_ HR]].
+  rewrite E.
+  replace (map (fun sg => u (seg A B sg)) nodes) with (map (peval P) (map (fun sg => (sg, 0)) nodes)) by (rewrite map_map; apply map_ext; intros; symmetry; apply E).
+  rewrite rdot_peval, (Rmult_comm (pnorm1 P)). unfold peval.
+  apply plin_diff_bound with (k := p); [eapply pdeg_mono; eassumption|].
+  intros [i j] Hm; cbn [fst snd] in *.
+  rewrite map_map.
+  rewrite (rdot_map_ext N (fun sg => rmon (sg, 0) (i, j)) (fun sg => 0 ^ j * sg ^ i)) by (intros; unfold rmon; cbn [fst snd]; ring).
+  rewrite rdot_map_scal. unfold rmon; cbn [fst snd].
+  replace (0 ^ j * rdot N (map (fun sg => sg ^ i) nodes) - s ^ i * 0 ^ j) with (0 ^ j * (rdot N (map (fun sg => sg ^ i) nodes) - s ^ i)) by ring.
+  rewrite Rabs_mult. assert (Hi : (i <= p)%nat) by lia. destruct (HR i Hi) as [H0 _].
+  assert (Rabs (0 ^ j) <= 1) by (destruct j; [simpl; rewrite Rabs_R1; lra | rewrite pow_i by lia; rewrite Rabs_R0; lra]).
+  pose proof (Rabs_pos (0 ^ j)). pose proof (Rabs_pos (rdot N (map (fun sg => sg ^ i) nodes) - s ^ i)). nra.
+Qed.
